@@ -1,5 +1,5 @@
 From Coq Require Import Extraction ExtrOcamlBasic.
 From CV Require Import Base.Num C18.ValueModel C17.ExtLagModel.
 Extraction Language OCaml.
-Extraction "model.ml" mkNumOps nhalf mkConfig mkParams mkState mkInput init_params init_state restart_state step trace
+Extraction "model.ml" mkNumOps nhalf mkConfig mkParams mkState mkInput init_params init_state restart_state step trace sleep awake_at mstep menergy mtrace saved_xv
   reported_energy.
